@@ -84,6 +84,29 @@ fn mutate_item(rng: &mut StdRng, it: &Value, desc: &Value, sub: usize, normal: &
     let op = desc["op"].as_str()?;
     let ty = it["ty"].as_str().unwrap_or("");
     match op {
+        "set_num" if ty == "varint" => {
+            // a Minecraft VarInt length prefix at the ends of its range (declared length >> data, negative, zero)
+            let v: i32 = match desc["b"].as_str()? {
+                "zero" => 0,
+                "one" => 1,
+                "max" => -1,
+                "maxminus1" => i32::MAX - 1,
+                "signbit" => i32::MIN,
+                _ => i32::MAX,
+            };
+            let mut out = Vec::new();
+            let mut u = v as u32;
+            loop {
+                let b = (u & 0x7f) as u8;
+                u >>= 7;
+                if u == 0 {
+                    out.push(b);
+                    break;
+                }
+                out.push(b | 0x80);
+            }
+            Some(out)
+        }
         "set_num" => {
             let w = width_of(ty);
             let be = ty.ends_with("be");
